@@ -583,7 +583,7 @@ class C07Writer(core.Check):
 
     def budgets(self, tier):
         if tier == 'thorough':
-            return {'runs': 40000, 'determinism': 200, 'wall': 3000}
+            return {'runs': 100000, 'determinism': 200, 'wall': 3400}
         return {'runs': 4000, 'determinism': 60, 'wall': 1800}
 
     def worker_init(self, tier):
